@@ -142,8 +142,12 @@ HistStart == \E x \in FSet :
     /\ stage' = "h0" /\ UNCHANGED <<g, op, aff, sched>>
 Depth == CASE stage = "h0" -> 0 [] stage = "h1" -> 1 [] stage = "h2" -> 2 [] stage = "h3" -> 3 [] OTHER -> 99
 StageOf(n) == CASE n = 1 -> "h1" [] n = 2 -> "h2" [] n = 3 -> "h3" [] OTHER -> "h4"
+\* operands of compose / + / - / apply_func expect two output components; after a composition that changes the output dimension
+\* (HistComposeDim) only the operations that do not depend on it remain enabled
+HistComposeDim == {Leaf(Aff(<<<<1, 1>>>>, <<3>>))}
 HistDo(o, x, a, res) ==
     /\ MODE = "history" /\ Depth < NG                                   \* NG = depth bound in this mode
+    /\ (o \in {"eliminate", "reduce", "neg"} \/ OutDims(h) \subseteq {2})
     /\ f' = [abs |-> f.abs, lay |-> "dfs", t |-> h]                        \* f.t = tree before the step
     /\ g' = IF x = None THEN None ELSE [abs |-> x, lay |-> "dfs", t |-> BuildTree(x, K, "dfs")]
     /\ h' = res /\ op' = o /\ aff' = IF a = NoAff THEN None ELSE a
@@ -157,8 +161,8 @@ HistNext ==
     \* replace_node on the first non-root node in index order (the harness applies the same rule)
     \/ (\E a \in {Aff(<<<<2>>, <<1>>>>, <<3, -1>>)} : Cardinality(Occ(h)) > 1 /\
             HistDo("replace_node", None, a, ReplaceNode(h, CHOOSE i \in Occ(h) \ {h.root} : \A j \in Occ(h) \ {h.root} : i <= j, a)))
-    \/ \E x \in HistCompose : HistDo("compose", x, NoAff, Compose(h, BuildTree(x, K, "dfs")))
-    \/ \E x \in HistCompose : HistDo("compose_prune", x, NoAff, ComposePruned(h, BuildTree(x, K, "dfs")))
+    \/ \E x \in HistCompose \cup HistComposeDim : HistDo("compose", x, NoAff, Compose(h, BuildTree(x, K, "dfs")))
+    \/ \E x \in HistCompose \cup HistComposeDim : HistDo("compose_prune", x, NoAff, ComposePruned(h, BuildTree(x, K, "dfs")))
     \/ \E x \in HistArith : HistDo("add", x, NoAff, Arith("add", h, BuildTree(x, K, "dfs")))
     \/ \E x \in HistArith : HistDo("sub", x, NoAff, Arith("sub", h, BuildTree(x, K, "dfs")))
 
